@@ -550,9 +550,11 @@ Definition handle_with (h : bhandler) (rk : brule) (m : mresult) (st : bstate) (
   | RListItem => Exn
   end.
 
+(* the nesting budget: when it is used up the model answers Exn, the counterpart of CPython's RecursionError
+   (the implementation really recurses once per nested or interrupting block: known finding C01) *)
 Fixpoint bhandle (fuel : nat) : bhandler :=
   match fuel with
-  | O => fun _ _ _ _ => Fuel
+  | O => fun _ _ _ _ => Exn
   | S f => handle_with (bhandle f)
   end.
 
